@@ -408,6 +408,8 @@ def C09(tier):
     if len(insts) < total:
         c.inconclusive.append("only %d of %d instantiations reported" % (len(insts), total))
     c.require("histories", c.stat("c09_histories"), 2000)
+    c.require("histories_near_the_maximum_of_a_narrow_length_type", c.stat("c09_histories_near_the_maximum_of_a_narrow_length_type"), 100)
+    c.require("histories_over_65536_elements", c.stat("c09_histories_over_65536_elements"), 20)
     c.require("huge_index_writes", c.stat("c09_huge_index_writes"), 200, "(bit offsets >= 2^32 in lazily mapped storage)")
     c.require("accesses_beyond_index_65535", c.stat("c09_accesses_beyond_index_65535"), 1000)
     c.assumptions = ["legal instantiations: bits <= slotbits + gcd(bits, slotbits); compact only where bits > slotbits (DESIGN.md C09)",
@@ -445,6 +447,7 @@ def C10(tier):
     c.require("wide_vector_writes", c.stat("c10_wide_vector_writes"), 100, "(bit vectors with > 2^32 columns, lazily mapped)")
     c.require("wide_vector_writes_beyond_4GiB", c.stat("c10_wide_vector_writes_beyond_4GiB"), 20)
     c.require("buffer_reuse_histories", c.stat("c10_buffer_reuse_histories"), 200)
+    c.require("big_bit_matrix_cells_beyond_2^32", c.stat("c10_big_bit_matrix_cells_beyond_2^32"), 500, "(boolean matrices of > 2^32 cells with <= 4-byte row and column counts)")
     c.assumptions = ["cols >= 1; Pack claims only pairs below 2^32", "byte cells behind 5-8 byte column counts cannot be backed by memory; covered by headers and bit vectors"]
     c.finish(c.stat("cases"), c.extra["per_cfg"].get("distinct_nontrivial@rel", 0),
              "cases cycle through pack/unpack pairs (nibble boundaries, >= 2^32 refusals), all 72 header width combinations "
@@ -463,6 +466,16 @@ def C11(tier):
     reps = sz(tier, 24, 256)
     rounds = sz(tier, 4, 8)
     n64, n32 = 64 * 64 * rounds, 32 * 32 * rounds
+    def bs(slot, val=None):
+        return dict(extra_cflags=("-DVBITS=uint%d_t" % slot,) + (("-DVBITSVAL=uint%d_t" % val,) if val else ()))
+    # the narrower matched word types and "slot type overridden alone" (value type left at its uint64_t default): the header's
+    # two knobs are independent; widths 1..slot bits
+    for tag, kw, n in (("16", bs(16, 16), 16 * 16 * rounds * 4), ("8", bs(8, 8), 8 * 8 * rounds * 16), ("32v64", bs(32), n32),
+                       ("16v64", bs(16), 16 * 16 * rounds * 4), ("8v64", bs(8), 8 * 8 * rounds * 16)):
+        pp = [reps, 7]
+        c.spec("bits%s-asan" % tag, "asan", "drv_bitstream", "c11", per_shard(n), params=pp, build_kw=kw, shards=[0, 1, 2, 3, 4, 5, 6, 7])
+        c.spec("bits%s-rel" % tag, "rel", "drv_bitstream", "c11", per_shard(n), params=pp, build_kw=kw)
+        c.spec("bits%s-clang" % tag, "clang", "drv_bitstream", "c11", per_shard(n), params=pp, build_kw=kw, shards=[8, 9, 10, 11])
     for tag, kw, n in (("64", {}, n64), ("32", BS32, n32)):
         pp = [reps, 7]
         c.spec("bits%s-asan" % tag, "asan", "drv_bitstream", "c11", per_shard(n), params=pp, build_kw=kw)
@@ -476,9 +489,10 @@ def C11(tier):
     c.require("fullwidth_unaligned", c.stat("c11_fullwidth_unaligned"), 1000)
     c.require("signed_roundtrips", c.stat("c11_signed_roundtrips"), 10000)
     c.require("append_sequences", c.stat("c11_append_sequences"), 50)
-    c.require("huge_stream_writes", c.stat("c11_huge_stream_writes"), 100, "(offsets >= 2^32 in lazily mapped streams)")
+    c.require("huge_stream_writes", c.stat("c11_huge_stream_writes"), 600, "(offsets around 2^31, 2^32, 2^32+2^31, 2^33 and 2^34 in lazily mapped streams)")
+    c.require("huge_stream_writes_spanning_two_words", c.stat("c11_huge_stream_writes_spanning_two_words"), 100)
     c.require("pairs_enumerated_rel", c.extra["per_cfg"].get("distinct_nontrivial@rel", 0), 64 * 64 + 32 * 32)
-    c.assumptions = ["word types: the two documented ones (uint64_t default; VBITS=VBITSVAL=uint32_t)", "value < 2^width; PrepareSigned applied to negative values only"]
+    c.assumptions = ["word types: uint64_t default; VBITS=VBITSVAL=uint32_t (documented); uint16_t and uint8_t pairs; VBITS alone = uint32_t/uint16_t/uint8_t with the default 64-bit value type, widths up to the slot width", "value < 2^width; PrepareSigned applied to negative values only"]
     c.finish(c.stat("c11_writes"), c.extra["per_cfg"].get("distinct_nontrivial@rel", 0),
              "all (offset mod word, width) pairs enumerated exhaustively for both word types (64x64 + 32x32), each at 3 absolute word "
              "positions x %d (value, prior contents) samples incl. all-zero/all-one backgrounds; stream is an exact-size block ending "
@@ -582,6 +596,7 @@ def C15(tier):
     c.stats["digest_comparisons"] = ncmp
     c.require("digest_comparisons", ncmp, 40)
     c.require("calls", c.stat("c15_calls"), 100000)
+    c.require("sampled_analysis_calls", c.stat("c15_sampled_analysis_calls"), 200, "(automatic adaptive encodes of > 10000 elements)")
     c.extra["worlds"] = {str(k): v for k, v in WORLDS.items()}
     c.assumptions = ["call i is a function of (seed, i) only; in/out metadata structs are passed zeroed (the API reads them)",
                      "MSan: every library output the harness digests is first checked with __msan_check_mem_is_initialized; output-only metadata structs are MSan-poisoned before the call"]
@@ -610,6 +625,13 @@ def C17(tier):
         for T_ in (4, 8):
             handles.append(c.spec("threads-tsanN-%d" % T_, "tsanN", "drv_threads", "c17", 1, nshards=4, shards=[0, 1], params=[T_, rounds], env=tsan_env, timeout=3000))
         handles.append(c.spec("threads-native-8", "native", "drv_threads", "c17", 1, nshards=4, shards=[0, 1], params=[8, rounds * 2], timeout=3000))
+    # cold start: fresh processes in which no library function has run before the threads are released together, so that
+    # one-time initialisation (lazily built tables, first-use caches) is itself exercised concurrently
+    ncold = sz(tier, 6, 24)
+    handles.append(c.spec("cold-tsan-8", "tsan", "drv_threads", "c17cold", 1, nshards=ncold, shards=list(range(ncold)), params=[8, 1], env=tsan_env, timeout=3000))
+    handles.append(c.spec("cold-rel-16", "rel", "drv_threads", "c17cold", 1, nshards=ncold * 2, shards=list(range(ncold * 2)), params=[16, 1], timeout=3000))
+    if HAVE_NATIVE:
+        handles.append(c.spec("cold-tsanN-8", "tsanN", "drv_threads", "c17cold", 1, nshards=4, shards=[0, 1, 2, 3][:sz(tier, 2, 4)], params=[8, 1], env=tsan_env, timeout=3000))
     if tier == T:
         handles.append(c.spec("threads-helgrind-4", "dbg", "drv_threads", "c17", 1, nshards=4, shards=[0, 1], params=[4, 8], timeout=3400,
                               wrapper=["valgrind", "-q", "--tool=helgrind", "--history-level=approx"]))
@@ -636,6 +658,7 @@ def C17(tier):
               "(every op must have been observed running concurrently with itself in at least one process)")
     c.require("distinct_overlapping_pairs", c.maxes.get("c17_distinct_overlapping_pairs", 0), 300)
     c.require("calls_overlapping_another", c.stat("c17_calls_overlapping_another"), 10000)
+    c.require("cold_start_processes_x_ops", c.stat("c17_cold_start_ops"), 6 * 40)
     c.assumptions = ["TSan's happens-before analysis over the schedules actually produced approximates 'all interleavings'; the overlap matrix says what was produced",
                      "shared inputs are read-only after setup; outputs, packed arrays and bitstreams are thread-private (the documented contract)"]
     c.finish(c.stat("c17_calls"), c.maxes.get("c17_distinct_overlapping_pairs", 0),
